@@ -500,10 +500,14 @@ func (m *monitor) run() {
 			if len(seen) > 0 && !named {
 				m.fail("R6-heartbeat-primary", sig, "txn %d: heart-beat names %q, the transaction's primaries so far were %q", ts, req.PrimaryLock, seen)
 			}
-			if req.AdviseLockTtl < lastTTL {
+			// judged on the first appearance of a value: a re-send after a time-out repeats the value of its
+			// tick and may leave after the heart-beat of a later tick
+			if first && req.AdviseLockTtl < lastTTL {
 				m.fail("R6-heartbeat-ttl-decreases", sig, "txn %d: advised ttl went from %d to %d", ts, lastTTL, req.AdviseLockTtl)
 			}
-			lastTTL = req.AdviseLockTtl
+			if first {
+				lastTTL = req.AdviseLockTtl
+			}
 			age := (time0Millis + hb.SubmitAt.Milliseconds()) - physical(ts)
 			// judged when a tick's heart-beat is first sent (a re-send after a region error or a time-out
 			// repeats the value computed at the tick)
